@@ -587,77 +587,127 @@ func checkCSVRow(c *core.Ctx) {
 		return
 	}
 	c.SawFunc(key)
-	in := newInterp(p, fn)
-	in.Hooks.Loop = func(st *absint.State, loop ast.Stmt) *absint.LoopSpec {
-		return &absint.LoopSpec{Cases: []string{"CELL"}, MaxIter: 2, MinIter: 1, RefStep: func(ref, cs string) string { return "" }}
-	}
-	in.Hooks.Call = func(st *absint.State, call *ast.CallExpr, callee string, recv absint.Val, args []absint.Val) (absint.Val, bool) {
-		switch callee {
-		case "outputs/formats.FormatCSVValue":
-			st.Emit("FORMAT", call.Pos(), args...)
-			return absint.Nil{}, true
-		case "strings.(*Builder).String":
-			st.Emit("TAKE", call.Pos())
-			return absint.S("CELLTEXT"), true
-		case "strings.(*Builder).Reset":
-			st.Emit("RESET", call.Pos())
-			return absint.Nil{}, true
-		case "encoding/csv.(*Writer).Write":
-			st.Emit("WRITEROW", call.Pos(), args...)
-			return absint.S("WRITEERR"), true
-		}
-		return nil, false
-	}
-	outs, err := runDecl(in, fn, nil, "")
-	if err != nil {
-		c.Unknown("CROW", key, fn.Decl.Pos(), err.Error())
-		return
-	}
 	bad := ""
-	for _, o := range outs {
-		if o.Kind != "return" || len(o.Values) != 1 {
-			continue
-		}
-		var seq []string
-		for _, e := range o.Events {
-			switch e.Name {
-			case "FORMAT":
-				seq = append(seq, "FORMAT("+e.Args[len(e.Args)-1].Canon()+")")
-			case "TAKE", "RESET":
-				seq = append(seq, e.Name)
-			case "WRITEROW":
-				seq = append(seq, "WRITEROW")
-			case "store":
+	total := 0
+	for _, single := range []bool{false, true} {
+		single := single
+		in := newInterp(p, fn)
+		in.Hooks.Loop = func(st *absint.State, loop ast.Stmt) *absint.LoopSpec {
+			max := 2
+			if single {
+				max = 1
 			}
-			if strings.HasPrefix(e.Name, "store ") && strings.Contains(e.Name, "[") && len(e.Args) == 1 && e.Args[0].Canon() == "CELLTEXT" {
-				seq = append(seq, "CELL"+e.Name[strings.LastIndex(e.Name, "["):])
-			}
+			return &absint.LoopSpec{Cases: []string{"CELL"}, MaxIter: max, MinIter: 1, RefStep: func(ref, cs string) string { return "" }}
 		}
-		got := strings.Join(seq, " ")
-		// per cell: FORMAT(values[i]) TAKE CELL[i] RESET
-		cells := strings.Count(got, "FORMAT(")
-		re := 0
-		for k := 0; k+3 < len(seq); k++ {
-			if strings.HasPrefix(seq[k], "FORMAT(") && seq[k+1] == "TAKE" && strings.HasPrefix(seq[k+2], "CELL[") && seq[k+3] == "RESET" {
-				idx := strings.TrimSuffix(strings.TrimPrefix(seq[k+2], "CELL["), "]")
-				if strings.HasSuffix(seq[k], "["+idx+"])") {
-					re++
+		// scenario "single": the row is one empty field (a NULL or an empty string in a one-column result)
+		in.Hooks.Cond = func(st *absint.State, atom string) (bool, bool) {
+			if strings.HasPrefix(atom, "(1 == len(") {
+				return single, true
+			}
+			if strings.Contains(atom, `"" ==`) || strings.Contains(atom, `== ""`) {
+				return single, true
+			}
+			return false, false
+		}
+		in.Hooks.Call = func(st *absint.State, call *ast.CallExpr, callee string, recv absint.Val, args []absint.Val) (absint.Val, bool) {
+			switch callee {
+			case "outputs/formats.FormatCSVValue":
+				st.Emit("FORMAT", call.Pos(), args...)
+				return absint.Nil{}, true
+			case "strings.(*Builder).String":
+				st.Emit("TAKE", call.Pos())
+				return absint.S("CELLTEXT"), true
+			case "strings.(*Builder).Reset":
+				st.Emit("RESET", call.Pos())
+				return absint.Nil{}, true
+			case "encoding/csv.(*Writer).Write":
+				st.Emit("WRITEROW", call.Pos(), args...)
+				return absint.S("WRITEERR"), true
+			case "encoding/csv.(*Writer).Flush":
+				st.Emit("FLUSH", call.Pos())
+				return absint.Nil{}, true
+			case "encoding/csv.(*Writer).Error":
+				return absint.S("FLUSHERR"), true
+			case "io.WriteString":
+				st.Emit("RAWWRITE", call.Pos(), args...)
+				return absint.Tuple{Elems: []absint.Val{absint.S("N"), absint.S("RAWERR")}}, true
+			}
+			return nil, false
+		}
+		outs, err := runDecl(in, fn, nil, "")
+		if err != nil {
+			c.Unknown("CROW", key, fn.Decl.Pos(), err.Error())
+			return
+		}
+		total += len(outs)
+		for _, o := range outs {
+			if o.Kind != "return" || len(o.Values) != 1 {
+				continue
+			}
+			var seq []string
+			raw := ""
+			for _, e := range o.Events {
+				switch e.Name {
+				case "FORMAT":
+					seq = append(seq, "FORMAT("+e.Args[len(e.Args)-1].Canon()+")")
+				case "TAKE", "RESET", "FLUSH":
+					seq = append(seq, e.Name)
+				case "WRITEROW":
+					seq = append(seq, "WRITEROW")
+				case "RAWWRITE":
+					seq = append(seq, "RAWWRITE")
+					if len(e.Args) == 2 {
+						raw = e.Args[1].Canon()
+					}
+				}
+				if strings.HasPrefix(e.Name, "store ") && strings.Contains(e.Name, "[") && len(e.Args) == 1 && e.Args[0].Canon() == "CELLTEXT" {
+					seq = append(seq, "CELL"+e.Name[strings.LastIndex(e.Name, "["):])
 				}
 			}
+			got := strings.Join(seq, " ")
+			// per cell: FORMAT(values[i]) TAKE CELL[i] RESET
+			cells := strings.Count(got, "FORMAT(")
+			re := 0
+			for k := 0; k+3 < len(seq); k++ {
+				if strings.HasPrefix(seq[k], "FORMAT(") && seq[k+1] == "TAKE" && strings.HasPrefix(seq[k+2], "CELL[") && seq[k+3] == "RESET" {
+					idx := strings.TrimSuffix(strings.TrimPrefix(seq[k+2], "CELL["), "]")
+					if strings.HasSuffix(seq[k], "["+idx+"])") {
+						re++
+					}
+				}
+			}
+			if cells == 0 || re != cells {
+				bad = "every cell i must be formatted from values[i], taken from the builder into row[i], and the builder reset before the next cell: " + got
+			}
+			if single {
+				// encoding/csv writes a record of one empty field as an empty line, which every csv reader skips
+				ret := o.Values[0].Canon()
+				switch {
+				case strings.Contains(got, "WRITEROW"):
+					bad = "a row of one empty field (a NULL in a one-column result) is handed to csv.Writer.Write, which writes it as an empty line — not a record: readers, octosql's own included, skip it"
+				case ret == "FLUSHERR" && !strings.Contains(got, "RAWWRITE"):
+					// the flush failed: nothing more can be written
+				case !strings.HasSuffix(got, "FLUSH RAWWRITE"):
+					bad = "a row of one empty field must be written as a quoted empty field after flushing the csv writer: " + got
+				case !strings.HasPrefix(raw, `"\"\"`) && !strings.HasPrefix(raw, "\"\\\"\\\""):
+					bad = "a row of one empty field must be written as \"\" and a newline; it writes " + raw
+				case ret != "RAWERR":
+					bad = "the error of writing the quoted empty field must be returned, returns " + o.Show(o.Values[0])
+				}
+				continue
+			}
+			if len(seq) == 0 || seq[len(seq)-1] != "WRITEROW" {
+				bad = "the row must be handed to the csv writer after all cells: " + got
+			}
+			if o.Values[0].Canon() != "WRITEERR" {
+				bad = "the csv writer's error must be returned, returns " + o.Show(o.Values[0])
+			}
 		}
-		if cells == 0 || re != cells {
-			bad = "every cell i must be formatted from values[i], taken from the builder into row[i], and the builder reset before the next cell: " + got
-		}
-		if len(seq) == 0 || seq[len(seq)-1] != "WRITEROW" {
-			bad = "the row must be handed to the csv writer after all cells: " + got
-		}
-		if o.Values[0].Canon() != "WRITEERR" {
-			bad = "the csv writer's error must be returned, returns " + o.Show(o.Values[0])
+		if len(outs) == 0 {
+			bad = "no outcome"
 		}
 	}
-	if len(outs) == 0 {
-		bad = "no outcome"
-	}
+	outs := make([]int, total)
 	c.Decide(bad == "", "CROW", key, fn.Decl.Pos(), len(outs), "format → take → store → reset per cell; write; return its error", bad)
 
 	// header and flush
